@@ -238,7 +238,10 @@ func randomScript(r *rand.Rand, stub bool) []stepT {
 		case x < 93:
 			steps = append(steps, stepT{Kind: "cmd", Arg: []string{"", "xyzzy", "setoption name Foo value 1", "debug on", "ponderhit", "  isready", "register later", "\t", "isready now",
 				"setoption name Hash value 1", "setoption name Hash value 0", "setoption name Depth value 2", "setoption name Depth value 0",
-				"setoption name Noise value 10", "setoption name OwnBook value false", "setoption name OwnBook value true", "setoption name Hash", "setoption"}[r.Intn(18)]})
+				"setoption name Noise value 10", "setoption name OwnBook value false", "setoption name OwnBook value true", "setoption name Hash", "setoption",
+				// lines that stop short or carry blanks where a value should be
+				"setoption name Hash value", "setoption name Noise value   ", "setoption name", "setoption value", "setoption name value 3",
+				"setoption name Clear Hash", "setoption name Depth value x", "setoption name Depth value -1"}[r.Intn(26)]})
 		default:
 			steps = append(steps, stepT{Kind: "pause", D: r.Intn(3)})
 		}
@@ -396,6 +399,13 @@ func directedScenarios() []directedT {
 			name: "go-depth-x-searching",
 			steps: []stepT{{Kind: "cmd", Arg: "position startpos"}, {Kind: "cmd", Arg: "go infinite"}, {Kind: "release", K: 1, D: 1},
 				{Kind: "cmd", Arg: "go depth x"}, {Kind: "cmd", Arg: "isready"}},
+		},
+		{ // option lines that stop short, while a search is running
+			name: "truncated-setoptions-searching",
+			steps: []stepT{{Kind: "cmd", Arg: "position startpos"}, {Kind: "cmd", Arg: "go infinite"}, {Kind: "release", K: 1, D: 1},
+				{Kind: "cmd", Arg: "setoption"}, {Kind: "cmd", Arg: "setoption name"}, {Kind: "cmd", Arg: "setoption name Hash"}, {Kind: "cmd", Arg: "setoption name Clear Hash"},
+				{Kind: "cmd", Arg: "setoption name Noise value"}, {Kind: "cmd", Arg: "isready"}, {Kind: "cmd", Arg: "setoption name Hash value   "},
+				{Kind: "cmd", Arg: "setoption value"}, {Kind: "cmd", Arg: "isready"}, {Kind: "cmd", Arg: "stop"}, {Kind: "cmd", Arg: "isready"}},
 		},
 		{ // a second go without stop
 			name: "go-go",
